@@ -84,6 +84,12 @@ func applyServiceExtends(ctx context.Context, name string, services map[string]a
 		processor PostProcessor
 	)
 
+	// the chain is tracked by the service being resolved and the file that defines it
+	tracker, err = tracker.Add(filename, name)
+	if err != nil {
+		return nil, err
+	}
+
 	if file != nil {
 		refFilename, ok := file.(string)
 		if !ok {
@@ -94,17 +100,13 @@ func applyServiceExtends(ctx context.Context, name string, services map[string]a
 		if err != nil {
 			return nil, err
 		}
-		filename = refFilename
+		// services of the extended file are resolved in the context of that file
+		ctx = context.WithValue(ctx, consts.ComposeFileKey{}, refFilename)
 	} else {
 		_, ok := services[ref]
 		if !ok {
 			return nil, fmt.Errorf("cannot extend service %q in %s: service %q not found", name, filename, ref)
 		}
-	}
-
-	tracker, err = tracker.Add(filename, name)
-	if err != nil {
-		return nil, err
 	}
 
 	// recursively apply `extends`
